@@ -664,6 +664,60 @@ func DetectAccelerationFromFlat(sid StateID, flatTrans []StateID, stride int, by
 	}, byteClasses)
 }
 
+// detectAccelExact decides from the flat table whether a state may be
+// accelerated, and returns its exit bytes (nil if it may not).
+//
+// Acceleration replaces running the state over a stretch of input by a memchr for
+// the exit bytes. That is only equivalent to running the state if
+//
+//  1. the transition of EVERY byte class is known (an unknown transition may lead
+//     anywhere; DetectAccelerationFromFlat tolerates a few),
+//  2. every byte that is not an exit byte leads back to the state itself. A
+//     transition to the dead state is an exit like any other: the search has to
+//     stop there, not skip the byte (DetectAccelerationFromFlat counts dead
+//     targets as "stay"),
+//  3. the exit bytes are ALL bytes of all classes that leave the state, at most
+//     3 and at least 1 (DetectAccelerationFromFlat returns one representative
+//     byte per exit class, so the other bytes of the class were skipped over).
+//
+// The transitions are compared by table offset: the same state is referred to
+// with and without its start tag.
+func detectAccelExact(sid StateID, flatTrans []StateID, stride int, byteClasses *nfa.ByteClasses) []byte {
+	if sid.IsDeadTag() || sid.IsInvalidTag() || stride <= 0 || stride > 256 {
+		return nil
+	}
+	base := sid.Offset()
+	if base+stride > len(flatTrans) {
+		return nil
+	}
+
+	var exitClass [256]bool
+	for classIdx := 0; classIdx < stride; classIdx++ {
+		next := flatTrans[base+classIdx]
+		if next.IsInvalidTag() {
+			return nil // unknown transition
+		}
+		if next.IsDeadTag() || next.Offset() != base {
+			exitClass[classIdx] = true
+		}
+	}
+
+	var exitBytes []byte
+	for b := 0; b < 256; b++ {
+		classIdx := b
+		if byteClasses != nil {
+			classIdx = int(byteClasses.Get(byte(b)))
+		}
+		if classIdx >= stride || exitClass[classIdx] {
+			if len(exitBytes) == 3 {
+				return nil
+			}
+			exitBytes = append(exitBytes, byte(b))
+		}
+	}
+	return exitBytes
+}
+
 // detectAccelFromTransitions is the shared implementation for acceleration detection.
 // transitionFn returns (nextID, cached) for a given class index.
 func detectAccelFromTransitions(selfID StateID, stride int, transitionFn func(int) (StateID, bool), byteClasses *nfa.ByteClasses) []byte {
